@@ -57,6 +57,14 @@ fn probe_order() -> Vec<i32> {
 
 /// Installs the quiet panic hook, forces lazily built globals, checks the shim is active.
 pub fn init() {
+    // glibc hands freed pages back after every short-lived unit thread and faults them in again (sys >> user);
+    // keep arenas and the heap top around instead (measured by the C24/C25 work: 20x less CPU under load)
+    unsafe {
+        libc::mallopt(libc::M_ARENA_MAX, workers() as i32 + 2);
+        libc::mallopt(libc::M_TRIM_THRESHOLD, 1 << 30);
+        libc::mallopt(libc::M_TOP_PAD, 64 << 20);
+        libc::mallopt(libc::M_MMAP_THRESHOLD, 32 << 20);
+    }
     std::panic::set_hook(Box::new(|info| {
         let loc = info
             .location()
